@@ -142,6 +142,7 @@ def rule_uexptab(crate):
                             v = Unknown
                         if v is True:
                             produced.add("⁻" + ch)
+    produced.discard("⁻")  # never a lexeme of its own: the `⁻` arm consumes the following character or reports an error
     produced = sorted(produced)
     try:
         fn = crate.find_fn("parser::Parser::unicode_exponent_to_int")
@@ -152,6 +153,8 @@ def rule_uexptab(crate):
         return out
     f = crate.file_of(fn)
     read, panics, found = set(), False, False
+    # `lexeme.strip_prefix('⁻')` (or starts_with / trim_start_matches): the sign is split off before the table is read
+    splits_sign = any(x.get("k") == "MethodCall" and x["name"] in ("strip_prefix", "starts_with", "trim_start_matches") and any(y.get("k") == "Lit" and isinstance(y.get("lit"), dict) and y["lit"].get("v") == "⁻" for y in walk(x.get("args", []))) for x in walk(fn["body"]))
     for m in walk(fn["body"]):
         if m.get("k") != "Match" or str(m.get("src")) != "Normal":
             continue
@@ -169,6 +172,8 @@ def rule_uexptab(crate):
     if not found:
         out.advisory("unicode-exponent:table", f, fn["line"], "unicode_exponent_to_int is not a literal table: rule not applicable")
         return out
+    if splits_sign:
+        read |= {"⁻" + r for r in list(read) if not r.startswith("⁻")}
     missing = [p for p in produced if p not in read]
     if missing and panics:
         out.violation("unicode-exponent:produced-not-read", f, fn["line"], "the tokenizer produces the UnicodeExponent lexeme(s) %s, which unicode_exponent_to_int does not list: its fall-through arm is unreachable!() — the input `2%s` aborts the interpreter with an internal panic" % (" ".join(missing), missing[0]))
